@@ -18,6 +18,7 @@ import (
 	"github.com/Vedant9500/WTF/internal/database"
 	"github.com/Vedant9500/WTF/internal/recovery"
 	"github.com/Vedant9500/WTF/zz_verif/sim/simos"
+	"github.com/Vedant9500/WTF/zz_verif/sim/simrand"
 	"github.com/Vedant9500/WTF/zz_verif/sim/simrt"
 	"github.com/Vedant9500/WTF/zz_verif/sim/simtime"
 	"gopkg.in/yaml.v3"
@@ -55,6 +56,9 @@ type C15Case struct {
 	// configuration): attempts from the I/O trace, waits from the recorded sleeps, the database
 	// from the verbose header and the engine tap.
 	CLI bool `json:"cli,omitempty"`
+	// Rand seeds the stand-in for the package-level math/rand generator (the runtime seeds it at random in every
+	// process): whatever the loader draws (jitter, ...) is part of the schedule the search explores
+	Rand int64 `json:"rand_seed,omitempty"`
 }
 
 var c15Kinds = []string{"valid", "missing", "dir", "perm", "empty", "malformed", "notlist", "truncated", "bitflip"}
@@ -135,6 +139,7 @@ func genC15(rt *rapid.T) C15Case {
 		c.CLI = true
 		c.Cfg = defaultCfg()
 	}
+	c.Rand = rapid.Int64Range(1, 1<<20).Draw(rt, "randseed")
 	return c
 }
 
@@ -375,6 +380,9 @@ func runC15(c C15Case) *Outcome {
 	}
 	simrt.SetOrderCanonical()
 	simtime.Install(simtime.Epoch)
+	if c.Rand != 0 {
+		simrand.Install(c.Rand)
+	}
 	defer simtime.Uninstall()
 	disk := simos.NewDisk()
 	var plan []simos.Fault
